@@ -223,12 +223,24 @@ def check_single_source_shortcut(F, L8):
             L8.sites += 1
             L8.fn(b.path)
             proof = None
+            lower_eq = upper_eq = None
             for (c, truth, D) in guards.known(cfg, E, blk.i):
                 sc = show(c)
                 if truth is True and re.match(r'Eq\(Vec::len\(.*\), 1\)$', sc):
                     proof = 'len() == 1'
+                if truth == ('eq', 1) and re.match(r'Vec::len\(.*\)$', sc):
+                    proof = 'len() == 1 (match arm)'
                 if truth is True and 'PartialEq::eq(' in sc and 'size_hint(' in sc and re.search(r'tuple\{(1, Option::Some\{1\}|0, Option::Some\{0\})\}', sc):
                     proof = 'size_hint() == (n, Some(n)) with n in {0, 1}'
+                # the same written component-wise: lower == n && upper == Some(n)
+                m1 = re.match(r'Eq\(\{?Iterator::size_hint\(.*\)\}?\.0, ([01])\)$', sc)
+                if truth is True and m1:
+                    lower_eq = int(m1.group(1))
+                m2 = re.search(r'size_hint\(.*\)\}?\.1.*Option::Some\{([01])\}', sc)
+                if truth is True and 'PartialEq::eq(' in sc and m2:
+                    upper_eq = int(m2.group(1))
+            if proof is None and lower_eq is not None and lower_eq == upper_eq:
+                proof = 'size_hint() lower == %d && upper == Some(%d)' % (lower_eq, upper_eq)
             if proof:
                 L8.ok(sample={'function': b.path, 'container_dropped_at': b.loc(blk.term.sp), 'proof_of_single_source': proof})
             else:
